@@ -300,4 +300,31 @@ theorem isIpv6_eq_spec (inp : List UInt8) (enc : Bool) : isIpv6 inp enc = .ok (s
     subst h1
     rw [isIpv6_pct a r enc h2, spec_pct a r enc h2]
 
+/-! ### aws_host_utils_is_ipv4 -/
+
+theorem rdN_ok (inp : List UInt8) : ∀ (n off : Nat), off + n ≤ inp.length →
+    rdN inp off n = .ok ((inp.drop off).take n)
+  | 0, off, _ => by simp [rdN]
+  | n + 1, off, h => by
+    have ih := rdN_ok inp n (off + 1) (by omega)
+    have hlt : off < inp.length := by omega
+    rw [rdN, rd_lt inp off hlt, bind_ok, ih, bind_ok]
+    have : List.drop off inp = inp[off] :: List.drop (off + 1) inp := (List.drop_eq_getElem_cons hlt)
+    rw [this, List.take_succ_cons]
+
+/-- longer than 15 bytes: refused without touching the input; otherwise exactly the `len` bytes are copied and the
+verdict is the scan of the local copy -/
+theorem isIpv4_eq (inp : List UInt8) :
+    isIpv4 inp = .ok (if 15 < inp.length then ⟨false, []⟩
+                      else ⟨ipv4Text (AwsVerif.Scanf.cstr inp), List.range' 0 inp.length⟩) := by
+  unfold isIpv4
+  by_cases h : 15 < inp.length
+  · have : IPV4_STR_LEN - 1 < inp.length := h
+    rw [if_pos this, if_pos h]
+  · have : ¬ IPV4_STR_LEN - 1 < inp.length := h
+    rw [if_neg this, if_neg h]
+    have hr := rdN_ok inp inp.length 0 (by omega)
+    simp only [List.drop_zero, List.take_length] at hr
+    rw [hr, bind_ok]
+
 end AwsVerif.Proofs.C04
